@@ -159,7 +159,9 @@ type Engine struct {
 	inconclusive                 []string
 	sleepDur                     map[int]string // clock reading index -> vf.Sleep duration preceding it
 	curFn                        string
+	inHarness                    bool
 	clockBudget                  string
+	appendSpare                  int
 	marshalMemo                  map[string]string
 	dhPairs                      [][2]string
 	macKeys                      []string
@@ -170,7 +172,7 @@ func (e *Engine) resetPath(prefix []decision) {
 	e.S = NewSolver()
 	e.prefix, e.decisions, e.pending, e.fresh, e.clockN, e.occ, e.Inputs = prefix, nil, nil, 0, 0, nil, nil
 	e.forkCount = 0
-	e.clockBudget = ""
+	e.clockBudget, e.appendSpare = "", 0
 	globals = map[*ssa.Global]Ptr{}
 	allocEpoch, epochCtr, frozenAt = map[*any]int{}, 0, -1
 	msgOf, tsOf = map[string]*msgProv{}, map[*any]TimeV{}
@@ -533,8 +535,8 @@ func noteAlloc(cells []any) {
 }
 
 func (e *Engine) checkWrite(cells []any, idx int, pos string) {
-	if frozenAt < 0 || len(cells) == 0 {
-		return
+	if frozenAt < 0 || len(cells) == 0 || e.inHarness {
+		return // writes made by harness code (the Storage implementation, the scripted listener) are the environment's
 	}
 	if ep, ok := allocEpoch[&cells[0]]; ok && ep <= frozenAt {
 		e.Violations = append(e.Violations, "WRITE to pre-existing memory at "+pos)
@@ -689,9 +691,9 @@ func (e *Engine) call(fn *ssa.Function, args []any, bind []any) any {
 		pos := fn.Prog.Fset.Position(fn.Pos())
 		e.funcs[fmt.Sprintf("%s (%s:%d)", fn.String(), relPath(pos.Filename), pos.Line)] = true
 	}
-	saved := e.curFn
-	e.curFn = fn.Name()
-	defer func() { e.curFn = saved }()
+	saved, savedH := e.curFn, e.inHarness
+	e.curFn, e.inHarness = fn.Name(), isHarnessFn(fn)
+	defer func() { e.curFn, e.inHarness = saved, savedH }()
 	f := &frame{fn: fn, env: map[ssa.Value]any{}}
 	for i, p := range fn.Params {
 		f.env[p] = args[i]
@@ -1371,6 +1373,21 @@ func (e *Engine) doCall(f *frame, c *ssa.CallCommon) any {
 	}
 }
 
+// zeroLike: the zero value of the kind of an existing element (used for spare capacity of reallocated slices).
+func zeroLike(v any) any {
+	switch v.(type) {
+	case Closure:
+		return Closure{}
+	case IfaceV:
+		return IfaceV{}
+	case string, SymStr:
+		return ""
+	case int64, SymInt:
+		return int64(0)
+	}
+	return nil
+}
+
 func (e *Engine) builtin(name string, args []any, c *ssa.CallCommon) any {
 	switch name {
 	case "len":
@@ -1422,7 +1439,26 @@ func (e *Engine) builtin(name string, args []any, c *ssa.CallCommon) any {
 			return SliceV{s.arr, s.off, s.len + add.len, s.cap}
 		}
 		n := s.len + add.len
-		arr := make([]any, n) // cap == len: tightest reallocation
+		// reallocation: cap == len (tightest) unless the harness asked for the runtime's freedom to round the capacity
+		// up (vf.AppendSpare(k)): then the spare capacity is an arbitrary value in 0..k
+		spare := 0
+		if e.appendSpare > 0 {
+			sym := e.freshSym("Int", "spare")
+			e.S.Send(fmt.Sprintf("(assert (and (<= 0 %s) (<= %s %d)))", sym, sym, e.appendSpare))
+			spare = int(e.concretize(SymInt{sym}))
+		}
+		arr := make([]any, n+spare)
+		if spare > 0 {
+			var el any
+			if add.len > 0 {
+				el = zeroLike((*add.arr)[add.off])
+			} else if s.len > 0 {
+				el = zeroLike((*s.arr)[s.off])
+			}
+			for i := n; i < n+spare; i++ {
+				arr[i] = el
+			}
+		}
 		noteAlloc(arr)
 		for i := 0; i < s.len; i++ {
 			arr[i] = (*s.arr)[s.off+i]
@@ -1430,7 +1466,7 @@ func (e *Engine) builtin(name string, args []any, c *ssa.CallCommon) any {
 		for i := 0; i < add.len; i++ {
 			arr[s.len+i] = (*add.arr)[add.off+i]
 		}
-		return SliceV{&arr, 0, n, n}
+		return SliceV{&arr, 0, n, n + spare}
 	}
 	panic("builtin " + name)
 }
